@@ -357,13 +357,18 @@ class HdlcFrameReader(MeterReaderBase[HdlcFrame]):
             frame_complete = self._handle_flag_sequence()
         elif self._frame is not None:  # not in hunt mode
             self._append_to_frame(current)
-            if len(self._frame) > HdlcFrame.MAX_FRAME_LENGTH:
-                _LOGGER.debug(
-                    "Max frame length reached. Discard frame: %s",
-                    self._raw_frame_data.hex(),
-                )
-                self._goto_hunt_mode()
-                frame_complete = False
+
+        # A flag sequence can also be appended to the frame (flag in content when octet stuffing is not used)
+        if (
+            not frame_complete
+            and self._frame is not None
+            and len(self._frame) > HdlcFrame.MAX_FRAME_LENGTH
+        ):
+            _LOGGER.debug(
+                "Max frame length reached. Discard frame: %s",
+                self._raw_frame_data.hex(),
+            )
+            self._goto_hunt_mode()
 
         return frame_complete
 
